@@ -2,6 +2,7 @@ from __future__ import absolute_import
 
 import pkgutil
 from collections import Counter, OrderedDict
+from numbers import Number
 from importlib import import_module
 
 import six
@@ -21,7 +22,7 @@ from .exceptions import (
     NoSuchParameter,
     MPilotError,
 )
-from .params import ResultParameter, ListParameter
+from .params import ResultParameter, ListParameter, DataTypeParameter
 from .parser.parser import Parser, ProgramNode
 from .utils import flatten, EEMS_COMMANDS, convert_eems2_commands
 
@@ -196,38 +197,61 @@ class Program(object):
         # type: () -> str
         """ Returns a string with commands formatted in the MPilot command file syntax. """
 
-        def serialize_value(value, argument, command):
-            # type: (Any, Argument, Command) -> str
+        def serialize_string(value):
+            # type: (str) -> str
 
-            param = command.inputs[argument.name]
+            return '"{}"'.format(
+                value.replace("\\", "\\\\")
+                .replace('"', '\\"')
+                .replace("\n", "\\n")
+                .replace("\r", "\\r")
+                .replace("\t", "\\t")
+            )
 
-            if isinstance(param, ResultParameter) or (
-                isinstance(param, ListParameter)
-                and isinstance(param.value_type, ResultParameter)
-            ):
+        def serialize_value(value, param):
+            # type: (Any, Any) -> str
+
+            if isinstance(value, Argument):
+                value = value.value
+            if isinstance(value, Command):
+                return value.result_name
+            if isinstance(value, (list, tuple)):
+                item_param = param.value_type if isinstance(param, ListParameter) else None
+                return "[{}]".format(", ".join(serialize_value(x, item_param) for x in value))
+            if isinstance(param, ResultParameter):
                 return str(value)
+            if isinstance(value, bool):
+                return str(value)
+            if isinstance(value, float):
+                text = repr(value)
+                if "e" in text and "." not in text:
+                    # The command file syntax needs a decimal point in front of an exponent
+                    text = text.replace("e", ".0e")
+                return text
+            if isinstance(value, Number):
+                return str(value)
+            if isinstance(value, type) and isinstance(param, DataTypeParameter):
+                for name, valid_type in param.valid_types.items():
+                    if valid_type is value:
+                        return name
             if isinstance(value, six.string_types):
-                return '"{}"'.format(value)
-            else:
-                return str(value)
+                return serialize_string(value)
+            return str(value)
 
         def serialize_argument(argument, command):
             # type: (Argument, Command) -> str
 
-            if isinstance(argument, ListArgument):
-                return "[{}]".format(
-                    ", ".join(
-                        serialize_value(x, argument, command) for x in argument.value
-                    )
-                )
-            elif isinstance(argument.value, dict):
+            if isinstance(argument.value, dict):
                 return "[\n{}\n    ]".format(
                     ",\n".join(
-                        '        "{}": "{}"'.format(key, value)
+                        "        {}: {}".format(
+                            serialize_string(six.text_type(key)),
+                            serialize_string(six.text_type(value)),
+                        )
                         for key, value in argument.value.items()
                     )
                 )
-            return serialize_value(argument.value, argument, command)
+            return serialize_value(argument.value, command.inputs.get(argument.name))
 
         def serialize_command(command):
             # type: (Command) -> str
